@@ -365,11 +365,32 @@ impl Monitor for C06 {
             for a in &args {
                 let _ = xs.push_data(a.clone());
             }
-            log.push(format!("[{}] {} {}", step, args.iter().map(show).collect::<Vec<_>>().join(" "), word));
+            // one word in eight runs with the data stack exactly full: a read that cannot push its result is a failing
+            // read like any other (nothing moves)
+            let tight = rng.chance(1, 8);
+            let pushes = match &want {
+                Want::Value(_) | Want::Either(_) => 1,
+                _ => 0,
+            };
+            let want = if tight && pushes > args.len() {
+                obs.count("reads_refused_by_a_full_stack");
+                advance = 0;
+                Want::Fail
+            } else {
+                want
+            };
+            if tight {
+                let d = xs.verif_dump();
+                let _ = xs.set_stack_limit(Some(d.data_hidden.len() + d.data_visible.len()));
+            }
+            log.push(format!("[{}] {} {}{}", step, args.iter().map(show).collect::<Vec<_>>().join(" "), word, if tight { "   (stack limit = current depth)" } else { "" }));
             if log.len() > 40 {
                 log.remove(0);
             }
             let r = catch(|| xs.eval(&word));
+            if tight {
+                let _ = xs.set_stack_limit(Some(1_000));
+            }
             obs.count(&format!("word:{}", word.trim_end_matches(|c: char| c.is_ascii_digit() || c == 'l' || c == 'e' || c == 'b').trim_end_matches(|c: char| c.is_ascii_digit())));
             let r = match r {
                 Err((m, l)) => return self.fail(obs, idx, &word, "panic", &log, format!("panic {} at {}", m, normalise_loc(&l))),
